@@ -88,7 +88,17 @@ class Run:
         op = dict(k.pending)
         held_by_other = bool(self.in_cs - {p})
         k.grant()
-        evs = k.advance()
+        try:
+            evs = k.advance()
+        except TimeoutError:
+            # the process neither reached its next file operation nor finished: it is stuck (e.g. blocked on the lock instead
+            # of giving up after its timeout)
+            self.problems.append(("lock-error", "%s did not come back from `%s` within %.0f s%s: a holder that cannot get the lock "
+                                  "within its timeout must give up with the cache error" % (
+                                      p, op["op"], sched.SILENT_TIMEOUT, " while another process holds the lock" if held_by_other else "")))
+            k.kill()
+            self.in_cs.discard(p)
+            evs = []
         self._events(p, evs)
         if k.dead and not k.fin:
             self.problems.append(("died", "%s died unexpectedly at %s" % (p, op)))
@@ -269,21 +279,40 @@ def _scenarios(ctx, g):
         os.makedirs(d)
         return d
 
+    def adv(k):
+        """advance, but a process that stays silent is STUCK (blocked on the lock instead of giving up): a finding, not a crash"""
+        try:
+            return k.advance()
+        except TimeoutError:
+            out.append(("lock-error", "stuck-process", "process %s neither reached its next file operation nor finished within %.0f s "
+                        "(a holder that cannot get the lock within its timeout must give up with the cache error)" % (k.name, sched.SILENT_TIMEOUT)))
+            k.kill()
+            return []
+
     def run_to_end(k):
         while not k.fin and not k.dead and k.pending:
             k.grant()
-            k.advance()
+            adv(k)
         return k.fin or {"result": "died"}
 
     # 1. holder A inside the critical section, B tries: must give up with CacheException
     d = fresh("timeout")
     a = sched.spawn("A", d, g["inst"], ("hold",))
-    a.grant(); a.advance()          # lock granted -> now pending in_cs (holding)
+    a.grant(); adv(a)          # lock granted -> now pending in_cs (holding)
     b = sched.spawn("B", d, g["inst"], ("hold",))
     t0 = time.time()
     fb = None
-    b.grant(); evs = b.advance()
-    if b.pending and b.pending["op"] == "in_cs":
+    b.grant()
+    try:
+        evs = b.advance()
+    except TimeoutError:
+        out.append(("lock-error", "timeout-scenario", "B, blocked by A, neither entered nor gave up within %.0f s (it must give up with "
+                    "CacheException after its timeout)" % sched.SILENT_TIMEOUT))
+        b.kill()
+        evs = []
+    if b.dead and not b.fin:
+        fb = {"result": "killed"}
+    elif b.pending and b.pending["op"] == "in_cs":
         out.append(("overlap", "timeout-scenario", "B entered `with CacheLock(dir)` while A is still inside it"))
         fb = run_to_end(b)
     else:
@@ -304,7 +333,7 @@ def _scenarios(ctx, g):
     # 2. holder killed inside the critical section: lock must be free afterwards
     d = fresh("killed")
     a = sched.spawn("A", d, g["inst"], ("hold",))
-    a.grant(); a.advance()
+    a.grant(); adv(a)
     a.kill()
     c = sched.spawn("C", d, g["inst"], ("hold",))
     fc = run_to_end(c)
@@ -316,15 +345,15 @@ def _scenarios(ctx, g):
     #     B then holds; C arriving while B is inside must be refused (the lock file must keep its identity)
     d = fresh("handoff")
     a = sched.spawn("A", d, g["inst"], ("hold",))
-    a.grant(); a.advance()                          # A inside
+    a.grant(); adv(a)                          # A inside
     b = sched.spawn("B", d, g["inst"], ("hold",), lock_timeout=20.0)   # returns as soon as A leaves; long so that load cannot fake a refusal
     b.grant()                                       # B starts acquiring and polls; do not wait for it
     time.sleep(0.5)
     fa = run_to_end(a)                              # A leaves while B polls
-    b.advance()                                     # B's acquire returns
+    adv(b)                                     # B's acquire returns
     if b.pending and b.pending["op"] == "in_cs":
         c = sched.spawn("C", d, g["inst"], ("hold",))
-        c.grant(); c.advance()
+        c.grant(); adv(c)
         if c.pending and c.pending["op"] == "in_cs":
             out.append(("overlap", "handoff-scenario", "A held the lock, B waited inside acquire, A left and B got the lock; "
                         "C then also entered `with CacheLock(dir)` while B is still inside"))
@@ -339,6 +368,32 @@ def _scenarios(ctx, g):
     for k in (a, b):
         k.reap()
     ctx.case("scenario:handoff")
+    # 2c. first use of a cache location that does not exist yet, by two loaders at once: both reach the creation of the
+    #     directory before either has made it; both loads must succeed
+    d = os.path.join(work, "sc_firstuse", "not", "yet", "there")
+    shutil.rmtree(os.path.join(work, "sc_firstuse"), ignore_errors=True)
+    os.makedirs(os.path.dirname(d))
+    l1 = sched.spawn("L1", d, g["inst"], ("load", WANT_VERSION))
+    l2 = sched.spawn("L2", d, g["inst"], ("load", WANT_VERSION))
+    # run each up to the creation of the directory (if it comes), then let them go on alternately
+    for k in (l1, l2):
+        n = 0
+        while k.pending and k.pending["op"] != "mkcache" and n < 50:
+            k.grant(); adv(k); n += 1
+    live = [l1, l2]
+    n = 0
+    while any(k.pending for k in live) and n < 400:
+        for k in live:
+            if k.pending:
+                k.grant(); adv(k)
+        n += 1
+    for k in live:
+        f = k.fin or {"result": "died"}
+        if f.get("result") != "ok" or f.get("digest") != g["ref"]:
+            out.append(("load-failed", "first-use-of-a-missing-cache-directory", "two loaders started together on a cache directory that did not "
+                        "exist yet; %s ended with %s" % (k.name, {x: f.get(x) for x in ("result", "exc", "msg")})))
+        k.reap()
+    ctx.case("scenario:first-use")
     # 3. refresh interval: stamp ages (seconds before now) x expected
     from hed.schema import hed_cache_lock
     thr = hed_cache_lock.CACHE_TIME_THRESHOLD
@@ -397,13 +452,13 @@ def _scenarios(ctx, g):
     k = sched.spawn("P", d0, g["inst"], ("populate",))
     nsteps = 0
     while k.pending:
-        k.grant(); k.advance(); nsteps += 1
+        k.grant(); adv(k); nsteps += 1
     k.reap()
     for cut in range(nsteps + 1):
         d = fresh("prefix")
         k = sched.spawn("P", d, g["inst"], ("populate",))
         for _ in range(cut):
-            k.grant(); k.advance()
+            k.grant(); adv(k)
         if not k.fin:
             k.kill()
         else:
